@@ -361,6 +361,21 @@ func genC05(seed int64, tier string) []caseOut {
 			f = -f
 		}
 		lit := strconv.FormatFloat(f, 'e', -1, 64) // an exact spelling of the double
+		// other spellings of (a literal rounding to) a double: plain positional digits, long
+		// integer literals beyond 2^53, more digits than the shortest form needs
+		switch {
+		case i >= len(special) && i%5 == 1 && math.Abs(f) < 1e22 && math.Abs(f) >= 1e-7:
+			lit = strconv.FormatFloat(f, 'f', -1, 64)
+		case i >= len(special) && i%5 == 2:
+			lit = strconv.FormatFloat(f, 'e', 24, 64)
+		case i >= len(special) && i%5 == 3:
+			lit = []string{"9007199254740993", "-9007199254740993", "1234567890123456789", "9223372036854775807", "9223372036854775808", "-9223372036854775808",
+				"18446744073709551615", "123456789012345678901234567890", "9007199254740993.0", "9007199254740992.5", "72057594037927937", "4611686018427387905",
+				"100000000000000000000000", "0.1000000000000000055511151231257827", "1152921504606846977"}[r.Intn(15)]
+		}
+		if pf, perr := strconv.ParseFloat(lit, 64); perr == nil {
+			f = pf
+		}
 		o, ok := implCanon("[" + lit + "]")
 		// oracle digits
 		sci := strconv.FormatFloat(math.Abs(f), 'e', -1, 64)
